@@ -100,7 +100,8 @@ def termination_claimed(check_name, params):
         text = ' '.join(pats) if isinstance(pats, (list, tuple)) else str(pats)
     if check_name.startswith('c14') or check_name == 'c06_wcmatch':
         from wcmatch import wcmatch as W
-        return not (flags & W.SYMLINKS)
+        wflags = params[4] if check_name.startswith('c14') else params[1]
+        return not (wflags & W.SYMLINKS)
     if flags & G.FOLLOW and not flags & G.GLOBSTARLONG:
         return False
     if flags & G.GLOBSTARLONG and ('***' in text or flags & G.MATCHBASE and flags & G.FOLLOW):
@@ -500,4 +501,108 @@ def c16_classify(params, tree, res):
                 ok = False
         if ok and res['viol']:
             return 'match-leading-globstar-accepts-hidden'
+    return None
+
+
+# ---------------------------------------------------------------------------------------------------------
+# C14: WcMatch returns exactly the files a filtered directory walk selects
+
+def _single(name, pat, flags, pathmode):
+    """Single, non-negated pattern (C01/C02 meaning) through the real fnmatch/globmatch with dot-matching forced."""
+    from wcmatch import fnmatch as F, glob as G, wcmatch as W
+    if pathmode:
+        fl = G.DOTGLOB
+        for w, g in ((W.EXTMATCH, G.EXTGLOB), (W.BRACE, G.BRACE), (W.GLOBSTAR, G.GLOBSTAR), (W.MATCHBASE, G.MATCHBASE), (W.IGNORECASE, G.IGNORECASE), (W.CASE, G.CASE),
+                     (W.RAWCHARS, G.RAWCHARS)):
+            if flags & w:
+                fl |= g
+        p = pat
+        if p.startswith('/'):
+            p = p.lstrip('/')                  # anchored to the root: leading separators are stripped, MATCHBASE does not apply
+            fl &= ~G.MATCHBASE
+        return bool(p) and G.globmatch(name, p, flags=fl)
+    fl = F.DOTMATCH
+    for w, f in ((W.EXTMATCH, F.EXTMATCH), (W.BRACE, F.BRACE), (W.IGNORECASE, F.IGNORECASE), (W.CASE, F.CASE), (W.RAWCHARS, F.RAWCHARS)):
+        if flags & w:
+            fl |= f
+    return bool(pat) and F.fnmatch(name, pat, flags=fl)
+
+
+def _listmatch(name, inc, exc, flags, pathmode):
+    hit = any(_single(name, p, flags, pathmode) for p in inc) if inc else bool(exc)     # exclusions alone: everything except
+    return hit and not any(_single(name, e, flags, pathmode) for e in exc)
+
+
+def c14(root, finc, fexc, dinc, dexc, flags, slots):
+    """finc/fexc: inclusion / exclusion pieces of the file pattern; dinc/dexc: pieces of the folder-exclude pattern."""
+    from wcmatch import wcmatch as W
+    neg = '-' if flags & W.MINUSNEGATE else '!'
+    fpat = '|'.join(list(finc) + [neg + e for e in fexc])
+    dpat = '|'.join(list(dinc) + [neg + e for e in dexc])
+    w = _call(lambda: W.WcMatch(root, fpat, dpat, flags))
+    if isinstance(w, str):
+        return {'viol': [f'WcMatch() raised {w}'], 'obs': w}
+    got = _call(w.match)
+    if isinstance(got, str):
+        return {'viol': [f'WcMatch.match raised {got}'], 'obs': got}
+    skipped = w.get_skipped()
+    rec = bool(flags & W.RECURSIVE)
+    hid = bool(flags & W.HIDDEN)
+    sym = bool(flags & W.SYMLINKS)
+    want = []
+    visited = [0]
+    budget = [0]
+
+    def visit(d, rel):
+        budget[0] += 1
+        if budget[0] > 300:
+            return
+        try:
+            with os.scandir(d) as it:
+                ents = sorted(it, key=lambda e: e.name)
+        except OSError:
+            return
+        dirs, files = [], []
+        for e in ents:
+            try:
+                isd = e.is_dir()
+            except OSError:
+                isd = False
+            (dirs if isd else files).append(e)
+        for e in files:
+            visited[0] += 1
+            frel = rel + e.name
+            name = frel if flags & W.FILEPATHNAME else e.name
+            ok = True if not fpat else _listmatch(name, finc, fexc, flags, bool(flags & W.FILEPATHNAME))
+            if ok and (hid or not e.name.startswith('.')):
+                want.append(frel)
+        for e in dirs:
+            if not rec:
+                continue
+            drel = rel + e.name
+            name = (drel + '/') if flags & W.DIRPATHNAME else e.name
+            if dpat and _listmatch(name, dinc, dexc, flags, bool(flags & W.DIRPATHNAME)):
+                continue
+            if not hid and e.name.startswith('.'):
+                continue
+            if not sym and e.is_symlink():
+                continue
+            visit(os.path.join(d, e.name), drel + '/')
+
+    visit(root, '')
+    if budget[0] > 300:
+        return {'viol': [], 'obs': None, 'eloop': True}
+    pre = root.rstrip('/') + '/'
+    got_rel = [g[len(pre):] if g.startswith(pre) else g for g in got]
+    viol = []
+    if len(got_rel) != len(set(got_rel)):
+        viol.append(f'a file was yielded more than once: {sorted(got_rel)}')
+    if sorted(set(got_rel)) != sorted(set(want)):
+        viol.append(f'WcMatch({fpat!r}, exclude={dpat!r}) returned {sorted(set(got_rel))} but the filtered walk selects {sorted(set(want))}')
+    if skipped != visited[0] - len(got_rel):
+        viol.append(f'get_skipped()={skipped} but visited {visited[0]} files and returned {len(got_rel)}')
+    return {'viol': viol, 'obs': (sorted(got_rel), skipped)}
+
+
+def c14_classify(params, tree, res):
     return None
